@@ -98,8 +98,10 @@ structure Good (ctx : Ctx κ) : Prop where
   len : ∀ a, 3 ≤ (ctx.H a).length
   dec : ∀ sch p cs, ctx.decBlob (ctx.encMan sch p cs) = some (cs.map (ctx.reload sch))
 
-/-- the decoder returns entries with these names unchanged ("safe names") -/
+/-- commit accepts every entry name of the tree (valid UTF-8) and the decoder returns entries
+with these names unchanged -/
 def NamesOK (ctx : Ctx κ) (t : Node κ) : Prop :=
-  ∀ nm, nm ∈ allNames t → ∀ sch sum isDir, ctx.reload sch ⟨nm, sum, isDir⟩ = ⟨nm, sum, isDir⟩
+  ∀ nm, nm ∈ allNames t → ctx.nameOK nm = true ∧
+    ∀ sch sum isDir, ctx.reload sch ⟨nm, sum, isDir⟩ = ⟨nm, sum, isDir⟩
 
 end Dud
